@@ -98,4 +98,72 @@ theorem body_perm_invariant' (P : List Obj) (π π' : List Nat → List Nat)
     rw [h1, h2]
     exact bodyA_perm' P req s hdrop hkeys hnc _ _ ((hπ _).trans (hπ' _).symm)
 
+/-! ## `NoClash` from an executable premise (mini-round) -/
+
+/-- The test the driver evaluates as `noclash` for every request (there with `vs = range n`, `n` = number of
+    objects, and a store that is `none` outside the preset entries): every Var of `vs` is listed, unnamed, or
+    carries a name that is neither a key of `inputs` nor a requested output name. -/
+def noClashOn (vs : List Nat) (req : Request) (s : Renames.Store) : Bool :=
+  vs.all (fun v =>
+    req.inputs.any (fun e => e.obj == v) ||
+    (match s v with
+     | none => true
+     | some n => !(req.inputs.any (fun e => e.name == n)) && !(req.outputs.any (fun e => e.name == n))))
+
+/-- The Prop-level side condition of the `_noclash` theorems / `build_refines_spec` follows from the Boolean test
+    on any finite support of the store. -/
+theorem noClash_of_noClashOn (vs : List Nat) (req : Request) (s : Renames.Store)
+    (hsupp : ∀ v, v ∉ vs → s v = none) (h : noClashOn vs req s = true) : NoClash req s := by
+  intro v hv n hn
+  have hmem : v ∈ vs := by
+    apply Classical.byContradiction
+    intro hnot
+    rw [hsupp v hnot] at hn
+    cases hn
+  have hv' := List.all_eq_true.mp h v hmem
+  have hnl : req.inputs.any (fun e => e.obj == v) = false := by
+    cases hc : req.inputs.any (fun e => e.obj == v) with
+    | false => rfl
+    | true =>
+      obtain ⟨e, he, heq⟩ := List.any_eq_true.mp hc
+      exact absurd (List.mem_map.mpr ⟨e, he, by simpa using heq⟩) hv
+  rw [hnl, hn] at hv'
+  simp only [Bool.false_or, Bool.and_eq_true, Bool.not_eq_true'] at hv'
+  obtain ⟨h1, h2⟩ := hv'
+  constructor
+  · intro hm
+    obtain ⟨e, he, hname⟩ := List.mem_map.mp hm
+    have := List.any_eq_false.mp h1 e he
+    simp [hname] at this
+  · intro e he hname
+    have := List.any_eq_false.mp h2 e he
+    simp [hname] at this
+
+/-- … and conversely: the Boolean test is exact (on any list of Vars). -/
+theorem noClashOn_of_noClash (vs : List Nat) (req : Request) (s : Renames.Store)
+    (h : NoClash req s) : noClashOn vs req s = true := by
+  unfold noClashOn
+  rw [List.all_eq_true]
+  intro v _
+  cases hc : req.inputs.any (fun e => e.obj == v) with
+  | true => rfl
+  | false =>
+    have hv : v ∉ req.inputs.map (·.obj) := by
+      intro hm
+      obtain ⟨e, he, heq⟩ := List.mem_map.mp hm
+      have := List.any_eq_false.mp hc e he
+      simp [heq] at this
+    cases hs : s v with
+    | none => rfl
+    | some n =>
+      obtain ⟨h1, h2⟩ := h v hv n hs
+      simp only [Bool.false_or, Bool.and_eq_true, Bool.not_eq_true']
+      constructor
+      · rw [List.any_eq_false]
+        intro e he heq
+        exact h1 (List.mem_map.mpr ⟨e, he, by simpa using heq⟩)
+      · rw [List.any_eq_false]
+        intro e he heq
+        exact h2 e he (by simpa using heq)
+
 end Front
